@@ -50,6 +50,8 @@ type Req struct {
 	SubGen      int  // generation of that subscription
 	Governed    string
 	GotData     bool // a get that was answered with the resource (not an error)
+	NotFound    bool // a get that was answered with system.notFound (or had no responders)
+	Rf          int8 // 0 = not a reset re-fetch, 1 = undecidable from outside, 2 = certainly one (set when sent)
 }
 
 // Msg is something in flight towards the gateway.
@@ -331,6 +333,9 @@ func (t *Transport) SendRequest(subj string, payload []byte, cb mq.Response) {
 		}
 	}
 	t.reqs = append(t.reqs, r)
+	if r.Type == "get" {
+		r.Rf = s.refetchClass(r)
+	}
 	t.Log = append(t.Log, SeamEvent{Kind: "req", Req: r, Step: s.Step, Cut: s.Cut, Seq: s.seq, Time: s.nowNS()})
 	s.obsLocked("seam", "req "+r.ID+" "+s.payloadSummary(r))
 	s.mu.Unlock()
